@@ -32,6 +32,7 @@ func Run(c *hx.Ctx) {
 
 	crcCases(c)
 	gptCases(c, cfg)
+	foreignCases(c, cfg)
 	mbrCases(c)
 	mbrTableCases(c)
 	mbrDecodeCases(c)
